@@ -28,11 +28,14 @@ REGIMES = {
     "free>total": dict(MemTotal=1000000, MemFree=2000000, MemAvailable=500000, Buffers=1000, Cached=2000, SReclaimable=300,
                        Shmem=30, MemShared=31, Active=500, Inactive=200, Inact_dirty=70, Inact_clean=60, Inact_laundry=5,
                        Slab=70, **{"Active(file)": 150, "Inactive(file)": 120}),
+    "bigslab": dict(MemTotal=8000000, MemFree=500000, MemAvailable=0, Buffers=1000, Cached=20000, SReclaimable=900000,
+                    Shmem=30, MemShared=31, Active=500, Inactive=200, Inact_dirty=70, Inact_clean=60, Inact_laundry=5,
+                    Slab=950000, **{"Active(file)": 3000, "Inactive(file)": 1000}),
     "lowwater": dict(MemTotal=4000000, MemFree=10000, MemAvailable=0, Buffers=1000, Cached=20000, SReclaimable=3000,
                      Shmem=30, MemShared=31, Active=500, Inactive=200, Inact_dirty=70, Inact_clean=60, Inact_laundry=5,
                      Slab=70, **{"Active(file)": 6000, "Inactive(file)": 4000}),
 }
-ZONES = {"absent": None, "one": [3000], "three": [30, 4000, 9000], "huge": [2000000]}
+ZONES = {"absent": None, "one": [3000], "three": [30, 4000, 9000], "huge": [2000000], "mid": [50000, 60000]}
 VMSTAT = {"both": b"nr_free_pages 5\npswpin 11\npswpout 13\n", "absent": None, "onlyin": b"pswpin 11\nfoo 3\n",
           "neither": b"nr_free_pages 5\n", "reversed": b"pswpout 13\nx 1\npswpin 11\n"}
 
@@ -185,7 +188,7 @@ def build_cases(thorough):
     subsets = []
     for r in range(len(OPT) + 1):
         subsets += [list(s) for s in itertools.combinations(OPT, r)]
-    regs = list(REGIMES) if thorough else ["normal", "container", "avail0"]
+    regs = list(REGIMES) if thorough else ["normal", "container", "avail0", "bigslab"]
     for reg in regs:
         for s in subsets:
             cases.append(("vm", reg, s, "three"))
